@@ -27,16 +27,42 @@ Safe(c) == c \in {"https", "lo"}
 Script(c) == c \in {"js", "data", "vbs"}
 
 ReqSafe(r) == Safe(r.cls)
-\* resource identifiers must be identical (RFC 9728 3.3); issuers are compared modulo one
-\* trailing slash (the SDK's documented tolerance, authutil.IssuersEqual)
-MatchOK(d) == IF d.kind = "prm" THEN d.match = "exact" ELSE d.match \in {"exact", "slash"}
+\* Relation of an issuer identifier (the `issuer` of a metadata document, PreregisteredClient.Issuer,
+\* the RFC 9207 `iss` parameter) to the identifier it is compared with.  RFC 8414 3.3 wants the two
+\* IDENTICAL, RFC 9207 2.4 a simple string comparison; the SDK documents one tolerance (one trailing slash).
+\*   IssSame   identical, or identical modulo one trailing slash
+\*   IssEquiv  the same server under URI normalisation (RFC 3986 6.2.2.1: letter case of scheme/host;
+\*             DNS: a trailing dot after the host).  Not identical, but not unambiguously "a different
+\*             issuer" either: the property is not taken to forbid or to demand their acceptance.
+\*   IssNear   near misses, each of which names a DIFFERENT authorization server / identifier:
+\*     port      same scheme/host/path, another (or no / an added non-default) port  -- another origin
+\*     scheme    http <-> https on the same authority                               -- another origin
+\*     userinfo  scheme://user@host...                  -- not the identifier asked for
+\*     query     identifier?x=1  (RFC 8414 2: an issuer has no query component)
+\*     fragment  identifier#x    (RFC 8414 2: ... nor a fragment)
+\*     hostsfx   as.example.com.evil.example.org  -- the expected host is a proper prefix of another host
+\*     sub       an extra path segment / characters appended to the identifier
+\*     prefix    a strict path prefix (scheme://host of an issuer that has a path: another tenant)
+\*   "other"   unrelated identifier
+IssSame == {"exact", "slash"}
+IssEquiv == {"case", "dot"}
+IssNear == {"port", "scheme", "userinfo", "query", "fragment", "hostsfx", "sub", "prefix"}
+IssRels == IssSame \cup IssEquiv \cup IssNear \cup {"other"}
+\* the property: anything that is neither the same nor equivalent is a mismatch
+IssMatch(rel) == rel \in IssSame \cup IssEquiv
+\* the code (authutil.IssuersEqual): only the documented tolerance
+CodeIssMatch(rel) == rel \in IssSame
+
+\* resource identifiers must be identical (RFC 9728 3.3); issuers: see above
+MatchOK(d) == IF d.kind = "prm" THEN d.match = "exact" ELSE IssMatch(d.match)
 PkceOK(d) == d.kind = "asm" => d.pkce
 ScriptFree(d) == ~d.script
 StateOK(s) == s = "equal"
-\* RFC 9207: a received iss must equal the issuer; it must be present when support is advertised
+\* RFC 9207: a received iss must equal the issuer (simple string comparison: every other relation,
+\* "slash", "case" and "dot" included, fails); it must be present when support is advertised
 IssOK(iss, adv) == (iss # "absent" => iss = "equal") /\ (adv => iss # "absent")
 \* relation of the issuer the pre-registered credentials are bound to, to the issuer in use
-PreOK(rel) == rel \in {"unset", "exact", "slash"}
+PreOK(rel) == rel = "unset" \/ IssMatch(rel)
 
 -----------------------------------------------------------------------------
 \* Environment: variant sets (a .cfg may override any of them with `<-`)
@@ -57,17 +83,23 @@ PRMOutcomes == PRMHttpFail \cup PRMDocs
 ASM4xx == {"404", "401"}
 ASMHttpFail == {"500", "neterr", "badct", "badjson"}
 ASMFlagDocs == {"good", "good_lo", "iss_slash"}          \* the three flags vary for these
+\* documents whose `issuer` is a near miss of / equivalent to the URL asked for ("iss_" \o relation)
+ASMIssDocs == {"iss_port", "iss_scheme", "iss_userinfo", "iss_query", "iss_fragment", "iss_hostsfx",
+               "iss_prefix", "iss_case", "iss_dot"}
 ASMDocs == ASMFlagDocs \cup {"pkce_plain", "rev_http", "iss_other", "iss_sub", "no_pkce",
             "auth_http", "auth_js", "auth_data", "tok_http", "tok_js", "reg_http", "reg_js",
-            "intro_http", "intro_js", "jwks_js", "doc_js", "rev_js"}
+            "intro_http", "intro_js", "jwks_js", "doc_js", "rev_js"} \cup ASMIssDocs
 ASMOutcomes == ASM4xx \cup ASMHttpFail \cup ASMDocs
 RegFlags == {"none", "ep"}
 
 RegConfigs == {"cimd", "pre", "dcr", "cimd_pre", "cimd_dcr", "pre_dcr", "all"}
-PreRels == {"unset", "exact", "slash", "hostonly", "other"}
+\* ("hostonly" is the "prefix" relation when the authorization server has a path, "exact" otherwise)
+PreRels == {"unset", "exact", "slash", "hostonly", "other", "sub",
+            "port", "scheme", "userinfo", "query", "fragment", "hostsfx", "case", "dot"}
 DCROutcomes == {"201", "200", "400", "500", "noid", "js_uri", "neterr", "badjson"}
 AuthStates == {"equal", "different", "empty", "lower", "prefix"}
-AuthIsses == {"absent", "equal", "different", "slash"}
+AuthIsses == {"absent", "equal", "different", "slash",
+              "port", "scheme", "userinfo", "query", "fragment", "hostsfx", "case", "dot"}
 TokenOutcomes == {"good", "expiring", "400", "500", "noat", "neterr"}
 
 \* class of the resource_metadata URL in the challenge ("none": no such parameter)
@@ -108,6 +140,15 @@ ASMFacts(o, ip, cimd, rg) ==
     [] o = "rev_http"   -> [b EXCEPT !.other = "http"]
     [] o = "iss_other"  -> [b EXCEPT !.iss = "other"]
     [] o = "iss_sub"    -> [b EXCEPT !.iss = "sub"]
+    [] o = "iss_port"     -> [b EXCEPT !.iss = "port"]
+    [] o = "iss_scheme"   -> [b EXCEPT !.iss = "scheme"]
+    [] o = "iss_userinfo" -> [b EXCEPT !.iss = "userinfo"]
+    [] o = "iss_query"    -> [b EXCEPT !.iss = "query"]
+    [] o = "iss_fragment" -> [b EXCEPT !.iss = "fragment"]
+    [] o = "iss_hostsfx"  -> [b EXCEPT !.iss = "hostsfx"]
+    [] o = "iss_prefix"   -> [b EXCEPT !.iss = "prefix"]
+    [] o = "iss_case"     -> [b EXCEPT !.iss = "case"]
+    [] o = "iss_dot"      -> [b EXCEPT !.iss = "dot"]
     [] o = "no_pkce"    -> [b EXCEPT !.pkce = FALSE]
     [] o = "auth_http"  -> [b EXCEPT !.auth = "http"]
     [] o = "auth_js"    -> [b EXCEPT !.auth = "js"]
@@ -207,13 +248,14 @@ FetchASM(loc, o, ip, cimd, rg) ==
      THEN /\ o = "skip" /\ ip = FALSE /\ cimd = FALSE /\ rg = "ep"
           /\ Fail("asm") /\ UNCHANGED <<idx, asm, used, requested>>
      ELSE /\ o \in ASMOutcomes
+          /\ (o = "iss_prefix" => srv.path)                     \* a strict path prefix needs a path
           /\ IF o \in ASMFlagDocs THEN ip \in BOOLEAN /\ cimd \in BOOLEAN /\ rg \in RegFlags
              ELSE ip = FALSE /\ cimd = FALSE /\ rg = "ep"
           /\ requested' = requested \cup {[kind |-> "asm", cls |-> srv.cls]}
           /\ IF o \in ASM4xx THEN idx' = idx + 1 /\ UNCHANGED <<pc, asm, used, result, failed>>
              ELSE IF o \in ASMHttpFail THEN Fail("asm") /\ UNCHANGED <<idx, asm, used>>
              ELSE LET f == ASMFacts(o, ip, cimd, rg) IN
-               IF \/ f.iss \notin {"exact", "slash"}                      \* authutil.IssuersEqual
+               IF \/ ~CodeIssMatch(f.iss)                                \* authutil.IssuersEqual
                   \/ ~f.pkce                                              \* len(CodeChallengeMethodsSupported) == 0
                   \/ ASMScript(f)                                         \* checkURLScheme on nine fields
                   \/ \E c \in {f.auth, f.tok, f.reg, f.intro} : c # "none" /\ ~Safe(c)   \* checkHTTPSOrLoopback on four
@@ -231,7 +273,7 @@ PredefinedEndpoints ==
   /\ UNCHANGED <<ch, mcp, plist, srv, client, pre, ares, tokq, result, ts, requested, used, exchanged, credsTo, failed>>
 
 \* "hostonly": the credentials name scheme://host of the authorization server without its path
-EffPre(p) == IF p = "hostonly" THEN (IF srv.path THEN "other" ELSE "exact") ELSE p
+EffPre(p) == IF p = "hostonly" THEN (IF srv.path THEN "prefix" ELSE "exact") ELSE p
 
 \* handleRegistration: CIMD, then pre-registered (bound to its issuer), then DCR.
 \* (srv and the registration facts of asm are not read after this step and are reset.)
@@ -244,7 +286,7 @@ Register(rc, p, o) ==
           /\ UNCHANGED <<requested, result, failed>>
      ELSE IF HasPre(rc)
      THEN /\ o = "skip"
-          /\ IF EffPre(p) \in {"unset", "exact", "slash"}              \* Issuer == "" or IssuersEqual
+          /\ IF EffPre(p) = "unset" \/ CodeIssMatch(EffPre(p))          \* Issuer == "" or IssuersEqual
              THEN client' = "prereg" /\ pre' = EffPre(p) /\ pc' = "code" /\ UNCHANGED <<result, failed>>
              ELSE Fail("prereg") /\ UNCHANGED <<client, pre>>
           /\ UNCHANGED requested
